@@ -108,3 +108,56 @@ Proof.
   rewrite lookup_app, Hwn in Hn.
   exists wdc, suffix, wdn, n. repeat split; auto.
 Qed.
+
+(* ---- the fuel of the model is enough: beyond `fuel_for`, more fuel changes nothing (errors included) ------- *)
+Fixpoint mtl_entries (l : list (string * node)) : nat :=
+  match l with [] => 0 | (_, x) :: r => Nat.max (max_target_len x) (mtl_entries r) end.
+
+Lemma mtl_dir es : max_target_len (NDir es) = mtl_entries es.
+Proof. induction es as [|[k x] r IH]; simpl; auto. Qed.
+
+Lemma mtl_assoc es c x : assoc c es = Some x -> max_target_len x <= mtl_entries es.
+Proof.
+  induction es as [|[k y] r IH]; simpl; [discriminate|].
+  destruct (String.eqb k c).
+  - intros H. inv H. apply Nat.le_max_l.
+  - intros H. etransitivity; [apply IH; assumption|apply Nat.le_max_r].
+Qed.
+
+Lemma mtl_lookup p : forall root n, lookup root p = Some n -> max_target_len n <= max_target_len root.
+Proof.
+  induction p as [|c p IH]; intros root n H; simpl in H.
+  - inv H. auto.
+  - destruct root as [|es|t]; try discriminate.
+    destruct (assoc c es) as [x|] eqn:Ea; [|discriminate].
+    etransitivity; [eapply IH; eassumption|]. rewrite mtl_dir. eapply mtl_assoc; eauto.
+Qed.
+
+Lemma resolve_enough fuel root : forall resolved todo links k,
+  links <= max_links ->
+  length todo + (max_links - links) * S (max_target_len root) < fuel ->
+  resolve (fuel + k) root resolved todo links = resolve fuel root resolved todo links.
+Proof.
+  induction fuel as [|f IH]; intros resolved todo links k Hl Hb; [exfalso; eapply Nat.nlt_0_r; exact Hb|].
+  simpl. destruct todo as [|c rest]; [reflexivity|]. cbn [length] in Hb.
+  set (D := (max_links - links) * S (max_target_len root)) in *.
+  destruct (lookup root resolved) as [[|es|t]|] eqn:El; try reflexivity.
+  destruct (String.eqb c "" || String.eqb c "."); [apply IH; [assumption|lia]|].
+  destruct (String.eqb c ".."); [apply IH; [assumption|lia]|].
+  destruct (assoc c es) as [[|es'|t]|] eqn:Ea; try reflexivity; try (apply IH; [assumption|lia]).
+  destruct (Nat.leb max_links links) eqn:Elim; [reflexivity|].
+  apply Nat.leb_gt in Elim.
+  assert (Ht : length (components t) <= max_target_len root).
+  { pose proof (mtl_lookup _ _ _ El) as H1. rewrite mtl_dir in H1.
+    pose proof (mtl_assoc _ _ _ Ea) as H2. simpl in H2. lia. }
+  apply IH; [lia|]. rewrite app_length. subst D.
+  remember (max_links - links) as d. assert (Hd : max_links - S links = d - 1) by lia. rewrite Hd.
+  assert (d >= 1) by lia. destruct d as [|d']; [lia|]. cbn [Nat.sub]. rewrite Nat.sub_0_r.
+  remember (max_target_len root) as M. nia.
+Qed.
+
+Theorem fuel_for_enough root todo k :
+  resolve (fuel_for root todo + k) root [] todo 0 = resolve (fuel_for root todo) root [] todo 0.
+Proof.
+  apply resolve_enough; [lia|]. unfold fuel_for. rewrite Nat.sub_0_r. simpl. lia.
+Qed.
